@@ -20,4 +20,4 @@ func (r *RecMessaging) SendMessage(_ context.Context, m p2pmsg.Message, _ ...ret
 	return nil
 }
 func (r *RecMessaging) AddValidator(p2p.ValidatorFunc, ...p2pmsg.Message) {}
-func (r *RecMessaging) AddMessageHandler(...p2p.MessageHandler)          {}
+func (r *RecMessaging) AddMessageHandler(...p2p.MessageHandler)           {}
